@@ -495,6 +495,11 @@ func makeGenbankOriginParser(length int) genbankSubparser {
 			// retried as an unknown extra field.
 			state.Clear()
 
+			if length < 0 || toOriginLength(length) < 0 {
+				// A negative length, or one so large that the block size overflows.
+				return pars.NewError("sequence length out of range", state.Position())
+			}
+
 			if err := state.Request(toOriginLength(length)); err != nil {
 				return pars.NewError("not enough bytes in state", state.Position())
 			}
